@@ -13,6 +13,15 @@ FuncsGF  == {"F", "G"}
 KindGF   == [f \in FuncsGF |-> IF f = "G" THEN "gen" ELSE "plain"]
 WantedGF == [f \in FuncsGF |-> TRUE]
 ValsGF   == {"int"}
+\* async generators: all five kinds for simulation, {plain function, async generator} for exhaustive paths
+FuncsAll  == {"F", "U", "G", "C", "A"}
+KindAll   == [f \in FuncsAll |-> CASE f = "G" -> "gen" [] f = "C" -> "coro" [] f = "A" -> "agen" [] OTHER -> "plain"]
+WantedAll == [f \in FuncsAll |-> f # "U"]
+ValsAll   == {"int", "none"}
+FuncsAF  == {"F", "A"}
+KindAF   == [f \in FuncsAF |-> IF f = "A" THEN "agen" ELSE "plain"]
+WantedAF == [f \in FuncsAF |-> TRUE]
+ValsAF   == {"int"}
 
 DepthOK == TLCGet("level") <= MaxDepth
 View == <<fr, stack, truth, traces, skipped, logged>>
